@@ -137,4 +137,115 @@ example : ClosedGraph selfLoop 1 := ⟨by intro f c hf h; simp [selfLoop] at h; 
 /-- the repaired code answers on the same graph: six guard entries, each followed by its outcome -/
 example : (examineTrace selfLoop 1 0).map List.length = some 12 := by decide
 
+
+
+/-! ### nesting depth -/
+
+def Ev.depthLe (n : Nat) : Ev → Prop
+  | .enter _ d => d ≤ n
+  | _ => True
+
+def DepthsLe (n : Nat) (t : List Ev) : Prop := ∀ e ∈ t, e.depthLe n
+
+theorem stack_len_le (n : Nat) (stack : List Nat) (hnd : stack.Nodup) (hlt : ∀ x ∈ stack, x < n) :
+    stack.length ≤ n := by
+  have hsub : stack ⊆ List.range n := fun x hx => List.mem_range.2 (hlt x hx)
+  have := (List.subperm_of_subset hnd hsub).length_le
+  simpa using this
+
+theorem DepthsLe.append {n : Nat} {a b : List Ev} (ha : DepthsLe n a) (hb : DepthsLe n b) : DepthsLe n (a ++ b) := by
+  intro e he
+  rcases List.mem_append.1 he with h | h
+  · exact ha e h
+  · exact hb e h
+
+/-- **no guard event is ever recorded deeper than the number of functions**: the nesting of
+    examinations is bounded by the size of the call graph, whatever its shape -/
+theorem depth_bounded (g : FGraph) (n : Nat) (hc : ClosedGraph g n) :
+    ∀ (b : Nat),
+      (∀ (stack : List Nat) (c : Option Nat) (r : List Ev × List Nat), stack.Nodup → (∀ x ∈ stack, x < n) →
+        (∀ f, c = some f → f < n) → forgedF g b stack c = some r → DepthsLe n r.1) ∧
+      (∀ (stack : List Nat) (f : Nat) (r : List Ev × Option (List Nat)), stack.Nodup → (∀ x ∈ stack, x < n) →
+        f < n → guardedF g b stack f = some r → DepthsLe n r.1) := by
+  intro b
+  induction b with
+  | zero =>
+    constructor
+    · intro stack c r _ _ _ h; rw [forgedF] at h; cases h
+    · intro stack f r _ _ _ h; rw [guardedF] at h; cases h
+  | succ b ih =>
+    have hG : ∀ (stack : List Nat) (f : Nat) (r : List Ev × Option (List Nat)), stack.Nodup → (∀ x ∈ stack, x < n) →
+        f < n → guardedF g (b + 1) stack f = some r → DepthsLe n r.1 := by
+      intro stack f r hnd hlt hf h
+      have hlen := stack_len_le n stack hnd hlt
+      rw [guardedF] at h
+      by_cases hmem : f ∈ stack
+      · simp only [List.contains_iff_mem, hmem, if_true, Option.some.injEq] at h
+        subst h
+        intro e he
+        simp only [List.mem_cons, List.mem_nil_iff, or_false] at he
+        rcases he with rfl | rfl
+        · exact hlen
+        · trivial
+      · simp only [List.contains_iff_mem, hmem, if_false] at h
+        have hnd' : (f :: stack).Nodup := List.nodup_cons.2 ⟨hmem, hnd⟩
+        have hlt' : ∀ x ∈ f :: stack, x < n := by
+          intro x hx
+          rcases List.mem_cons.1 hx with rfl | hx
+          · exact hf
+          · exact hlt x hx
+        cases hfo : forgedF g b (f :: stack) (g.succ f) with
+        | none => rw [hfo] at h; cases h
+        | some res =>
+          obtain ⟨t, names⟩ := res
+          have ht := ih.1 (f :: stack) (g.succ f) (t, names) hnd' hlt' (fun c hc' => hc.succ_lt f c hf hc') hfo
+          rw [hfo] at h
+          simp only [] at h
+          have hbody : ∀ (last : Ev), last.depthLe n → DepthsLe n (Ev.enter (some f) stack.length :: t ++ [last]) := by
+            intro last hl e he
+            simp only [List.mem_cons, List.mem_append, List.mem_nil_iff, or_false] at he
+            rcases he with (rfl | he) | rfl
+            · exact hlen
+            · exact ht e he
+            · exact hl
+          split at h
+          · cases h; exact hbody _ trivial
+          · cases h; exact hbody _ trivial
+    refine ⟨?_, hG⟩
+    intro stack c r hnd hlt hcn h
+    cases c with
+    | none =>
+      rw [forgedF] at h
+      cases h
+      intro e he
+      simp only [List.mem_cons, List.mem_nil_iff, or_false] at he
+      rcases he with rfl | rfl
+      · exact stack_len_le n stack hnd hlt
+      · trivial
+    | some f =>
+      have hf := hcn f rfl
+      rw [forgedF] at h
+      cases hg1 : guardedF g b stack f with
+      | none => rw [hg1] at h; cases h
+      | some r1 =>
+        obtain ⟨t1, res1⟩ := r1
+        have h1 := ih.2 stack f (t1, res1) hnd hlt hf hg1
+        rw [hg1] at h
+        cases res1 with
+        | some names => cases h; exact h1
+        | none =>
+          simp only [] at h
+          split at h
+          · -- the second route: the same call again
+            cases h
+            exact DepthsLe.append h1 h1
+          · cases h; exact h1
+
+/-- in particular for a top-level retrieval -/
+theorem examine_depth_bounded (g : FGraph) (n f : Nat) (hc : ClosedGraph g n) (hf : f < n) (t : List Ev)
+    (h : examineTrace g n f = some t) : DepthsLe n t := by
+  simp only [examineTrace, Option.map_eq_some_iff] at h
+  obtain ⟨r, hr, rfl⟩ := h
+  exact (depth_bounded g n hc _).1 [] (some f) r List.nodup_nil (by simp) (by intro f' h; cases h; exact hf) hr
+
 end SV
